@@ -126,7 +126,11 @@ def params_digest(est):
 
 
 # ------------------------------------------------------------------ data
+N_EXTRA = 0          # extra samples added to every generated data set (thorough tier varies the shape)
+
+
 def base_data(dseed, n=14, d=5, t=2):
+    n = n + N_EXTRA
     rs = np.random.RandomState(dseed)
     X = rs.normal(size=(n, d))
     X -= X.mean(axis=0)
@@ -179,7 +183,7 @@ def sc_selector(pkg, cls):
             steps += [("get_distance", {}), ("get_select_distance", {})]
         if variant == 0:
             steps += [("set_params", dict(n_to_select=5)), ("fit", dict(X=Arr(X), y=y, warm_start=True))]
-        out = dict(ctor=ctor, steps=steps, fit=fit, fresh_steps=[("fit_transform", dict(X=Arr(X), y=y))] if feature else [],
+        out = dict(ctor=ctor, steps=steps, fit=fit, fresh_steps=[("fit_transform", dict(X=Arr(X), y=y))],
                    alt_fits={"A_then_B": dict(X=Arr(XB), y=Arr(YB) if y is not None else None),
                              "larger_then_smaller": dict(X=Arr(XS), y=Arr(YS) if y is not None else None)})
         if not pcov:
@@ -208,7 +212,7 @@ def sc_voronoi():
                "with_y_then_without": (dict(X=Arr(X), y=Arr(Y)), dict(X=Arr(XB), y=None)),
                "without_y_then_with": (dict(X=Arr(X), y=None), dict(X=Arr(XB), y=Arr(YB)))}
         # with full_fraction=None the calibrated value depends on wall-clock timings
-        return dict(ctor=ctor, steps=steps, fit=fit, alt_fits=alt if variant else {}, ignore={"full_fraction"} if variant == 0 else set(),
+        return dict(ctor=ctor, steps=steps, fit=fit, fresh_steps=[("fit_transform", {})], alt_fits=alt if variant else {}, ignore={"full_fraction"} if variant == 0 else set(),
                     nondeterministic=variant == 0)
     return dict(unit="sample_selection.VoronoiFPS", cls="sample_selection.VoronoiFPS", variants=3, make=make)
 
@@ -548,7 +552,7 @@ class Recorder:
         self.snapshots = set()
         self.errors = {}
         self.stats = dict(layouts={}, histories={}, determinism_pairs=0, fit_returns_self=0, fit_transform_pairs=0,
-                          readonly_write_attempts=0, tolerance_used=0)
+                          readonly_write_attempts=0, tolerance_used=0, ties_skipped=0)
         self.samples = []
 
     def mutation(self, entry, kind, name, what, case):
@@ -588,13 +592,13 @@ def observe_call(rec, entry, case, call, args_named, hyper_named, est, layout):
     for k, v in args_named.items():
         if isinstance(v, (np.ndarray, list, dict)) or hasattr(v, "__dict__"):
             if ok:
-                rec.snapshots.add((entry, k, layout))
+                rec.snapshots.add((entry, k, layout, N_EXTRA))
         if snap(v) != before[k]:
             rec.mutation(entry, "arg", k, "argument %s modified in place" % k, case)
     for k, v in hyper_named.items():
         if snap(v) != hbefore[k]:
             rec.mutation(entry, "hyper_obj", k, "object passed as hyper-parameter %s modified in place" % k, case)
-    if est is not None and ok and not entry.endswith(".set_params"):
+    if est is not None and not entry.endswith(".set_params"):
         pafter = params_digest(est)
         for k in sorted(set(pbefore) | set(pafter)):
             if pbefore.get(k) != pafter.get(k) and not (k in hyper_named and snap(hyper_named[k]) != hbefore[k]):
@@ -628,7 +632,7 @@ def run_class_case(rec, sc, variant, dseed, layout, checks=True):
     Cls = imp(sc["cls"])
     unit = sc["unit"]
     spec = sc["make"](variant, dseed)
-    case = dict(kind="class", scenario=unit, variant=variant, dseed=dseed, layout=layout)
+    case = dict(kind="class", scenario=unit, variant=variant, dseed=dseed, layout=layout, n_extra=N_EXTRA)
     ctor = realise(spec["ctor"], layout)
     hyper = {k: v for k, v in ctor.items() if isinstance(v, (np.ndarray, list, dict)) or hasattr(v, "get_params")}
     holder = {}
@@ -680,7 +684,7 @@ def run_function_case(rec, sc, variant, dseed, layout, checks=True):
     fn = imp(sc["fn"])
     unit = sc["unit"]
     spec = sc["make"](variant, dseed)
-    case = dict(kind="function", scenario=unit, variant=variant, dseed=dseed, layout=layout)
+    case = dict(kind="function", scenario=unit, variant=variant, dseed=dseed, layout=layout, n_extra=N_EXTRA)
     if isinstance(spec, tuple):
         args, kw = realise(spec[0], layout), realise(spec[1], layout)
     else:
@@ -706,6 +710,35 @@ def run_function_case(rec, sc, variant, dseed, layout, checks=True):
             rec.stats["tolerance_used"] += 1
 
 
+def tie_explains(Cls, sc, variant, dseed, layout, fitkw, e1, e2):
+    """two fits of a greedy selector picked different items: is the first differing pick a tie within
+    rounding between the two candidates (then the property does not constrain the choice)?"""
+    a, b = getattr(e1, "selected_idx_", None), getattr(e2, "selected_idx_", None)
+    if a is None or b is None:
+        return False
+    a, b = list(np.asarray(a).ravel()), list(np.asarray(b).ravel())
+    t = next((i for i in range(min(len(a), len(b))) if a[i] != b[i]), None)
+    if t is None or t == 0:
+        return False
+    try:
+        ctor = realise(sc["make"](variant, dseed)["ctor"], layout)
+        ctor["n_to_select"] = t
+        if isinstance(ctor.get("initialize"), (list, np.ndarray)) and len(ctor["initialize"]) > t:
+            return False
+        est = Cls(**ctor)
+        kw = realise(fitkw, layout)
+        with warnings.catch_warnings():
+            warnings.simplefilter("ignore")
+            invoke(est, "fit", kw)
+            sc_ = np.asarray(est.score(kw["X"], kw.get("y")), dtype=float)
+        if list(np.asarray(est.selected_idx_).ravel()) != a[:t]:
+            return False
+        x, y = sc_[a[t]], sc_[b[t]]
+        return bool(abs(x - y) <= 1e-6 * max(abs(x), abs(y)) + 1e-12)
+    except Exception:     # noqa
+        return False
+
+
 def fit_fresh(Cls, sc, variant, dseed, layout, fitkw):
     ctor = realise(sc["make"](variant, dseed)["ctor"], layout)
     est = Cls(**ctor)
@@ -723,14 +756,16 @@ def run_histories(rec, sc, variant, dseed, layout="C"):
     ignore = set(spec.get("ignore", ()))
     # determinism
     if not spec.get("nondeterministic"):
-        case = dict(kind="determinism", scenario=unit, variant=variant, dseed=dseed, layout=layout)
+        case = dict(kind="determinism", scenario=unit, variant=variant, dseed=dseed, layout=layout, n_extra=N_EXTRA)
         try:
             e1 = fit_fresh(Cls, sc, variant, dseed, layout, spec["fit"])
             e2 = fit_fresh(Cls, sc, variant, dseed, layout, spec["fit"])
             rec.stats["determinism_pairs"] += 1
             s1, s2 = state(e1), state(e2)
             d = state_diff(s1, s2, ignore)
-            if d:
+            if d and tie_explains(Cls, sc, variant, dseed, layout, spec["fit"], e1, e2):
+                rec.stats["ties_skipped"] += 1
+            elif d:
                 rec.violation("C09 fails: %s fitted twice on the same data with the same random_state gives different state (%s)" % (
                     unit, "; ".join(d[:4])), case, key="%s.fit:determinism" % unit, detail=d)
             elif any(s1[k] != s2[k] for k in s1 if k not in ignore):
@@ -741,7 +776,7 @@ def run_histories(rec, sc, variant, dseed, layout="C"):
         first = spec["fit"]
         if isinstance(second, tuple):
             first, second = second
-        case = dict(kind="history", scenario=unit, variant=variant, dseed=dseed, layout=layout, history=hname)
+        case = dict(kind="history", scenario=unit, variant=variant, dseed=dseed, layout=layout, n_extra=N_EXTRA, history=hname)
         rec.stats["histories"][hname] = rec.stats["histories"].get(hname, 0) + 1
         try:
             fresh = fit_fresh(Cls, sc, variant, dseed, layout, second)
@@ -762,33 +797,43 @@ def run_histories(rec, sc, variant, dseed, layout="C"):
                 unit, hname, type(e).__name__, str(e)[:100]), case, key="%s.fit:refit %s" % (unit, hname))
             continue
         d = state_diff(state(est), state(fresh), ignore)
-        if d:
+        if d and tie_explains(Cls, sc, variant, dseed, layout, second, est, fresh):
+            rec.stats["ties_skipped"] += 1
+        elif d:
             rec.violation("C09 fails: %s refitted (%s) differs from a fresh estimator fitted on the second data set: %s" % (
                 unit, hname, "; ".join(d[:4])), case, key="%s.fit:refit %s" % (unit, hname), detail=d)
 
 
 def run_dynamic(ctx):
+    global N_EXTRA
     rec = Recorder()
     quick = ctx.quick
-    nseeds = 1 if quick else 4
+    shapes = [0] if quick else [0, 5, 11, 20]
+    nseeds = 1 if quick else 3
     seeds = [ctx.rng.randrange(1, 10 ** 6) for _ in range(nseeds)]
-    for sc in class_scenarios():
-        for variant in range(sc["variants"]):
-            for si, dseed in enumerate(seeds):
-                for layout in LAYOUTS:
-                    run_class_case(rec, sc, variant, dseed, layout, checks=(layout == "C"))
-                run_histories(rec, sc, variant, dseed, "C")
-                if not quick:
-                    run_histories(rec, sc, variant, dseed, "F")
-    for sc in fn_scenarios():
-        for variant in range(sc["variants"]):
-            for dseed in seeds:
-                for layout in LAYOUTS:
-                    run_function_case(rec, sc, variant, dseed, layout)
+    try:
+        for extra in shapes:
+            N_EXTRA = extra
+            for sc in class_scenarios():
+                for variant in range(sc["variants"]):
+                    for dseed in seeds:
+                        for layout in LAYOUTS:
+                            run_class_case(rec, sc, variant, dseed, layout, checks=(layout == "C"))
+                        run_histories(rec, sc, variant, dseed, "C")
+                        if not quick:
+                            run_histories(rec, sc, variant, dseed, "F")
+            for sc in fn_scenarios():
+                for variant in range(sc["variants"]):
+                    for dseed in seeds:
+                        for layout in LAYOUTS:
+                            run_function_case(rec, sc, variant, dseed, layout)
+    finally:
+        N_EXTRA = 0
     rec.stats["errors"] = dict(sorted(rec.errors.items()))
     rec.stats["calls"] = rec.n_calls
     rec.stats["entry_points_called"] = len(rec.calls_by_entry)
     rec.stats["seeds"] = seeds
+    rec.stats["extra_samples"] = shapes
     samples = [dict(entry=e, calls=n) for e, n in sorted(rec.calls_by_entry.items())[:1]]
     return dict(mutations=rec.mutations, violations=rec.violations, calls_by_entry=rec.calls_by_entry,
                 n_calls=rec.n_calls, n_snapshots=len(rec.snapshots), stats=rec.stats, samples=samples)
@@ -802,6 +847,15 @@ def matches(o, kind, what):
 
 
 def replay_case(case):
+    global N_EXTRA
+    N_EXTRA = int(case.get("n_extra", 0))
+    try:
+        return _replay_case(case)
+    finally:
+        N_EXTRA = 0
+
+
+def _replay_case(case):
     rec = Recorder()
     scs = {s["unit"]: s for s in class_scenarios()}
     fns = {s["unit"]: s for s in fn_scenarios()}
